@@ -993,7 +993,7 @@ def read_wrappers_keep_buffer(prog, rule, files=('dbus/dbus-sysdeps-unix.c',)):
             rule.from_reports(ex.reports, keyfn=lambda k, rep, f=f: '%s:%s' % (f.name, k[0]))
         else:
             rule.ok(key)
-    if n < 2:
+    if n < (2 if getattr(prog, 'variant', 'A') == 'A' else 1):     # without SCM_RIGHTS support only _dbus_read is one
         raise AnalysisBroken('read wrappers that grow a string buffer: only %d found' % n)
     return n
 
